@@ -172,10 +172,24 @@ fn main() {
     let mut divergence = false;
     let mut timeout = false;
     let mut released_after_drop = 0usize;
+    // "slow partners": hold every release back for this long, so that any
+    // wait with a (shorter) time-out inside the code under test expires
+    // before the item it waits for is released
+    let hold_ms: u64 = std::env::var("PMAP_HOLD_MS")
+        .ok()
+        .and_then(|v| v.parse().ok())
+        .unwrap_or(0);
     loop {
         if !wait_quiescent(&me, &mut max_threads) {
             timeout = true;
             break;
+        }
+        if hold_ms > 0 && !consumer.is_finished() {
+            std::thread::sleep(std::time::Duration::from_millis(hold_ms));
+            if !wait_quiescent(&me, &mut max_threads) {
+                timeout = true;
+                break;
+            }
         }
         let mut enabled: Vec<u32> = {
             let g = GATE.lock().unwrap();
